@@ -60,6 +60,14 @@ type Case struct {
 	// EmptyAnn: the artifact descriptor carries an empty, non-nil annotation map (what decoding
 	// "annotations": {} yields); kept as a flag because JSON replays drop an empty map
 	EmptyAnn bool `json:"emptyAnnotations,omitempty"`
+	// VerifyOmit (blob): what the caller leaves out at verification although it was stated at
+	// signing - "media-type", "metadata", "both", "metadata-subset"; what comes back still
+	// describes what was signed
+	VerifyOmit string `json:"verifyOmit,omitempty"`
+	// OtherKeyFirst (plugin signers): the SAME signer object first signs once with a per-call plugin
+	// configuration that makes the plugin use another key (other key spec, other hash); the judged
+	// signing follows without that configuration
+	OtherKeyFirst string `json:"otherKeyFirst,omitempty"` // key spec of the earlier signing
 }
 
 type failingReader struct {
@@ -110,22 +118,34 @@ func (p *honestPlugin) GetMetadata(ctx context.Context, req *pf.GetMetadataReque
 	return &pf.GetMetadataResponse{Name: "honest", Description: "honest in-process plugin", Version: "1.0.0", URL: "https://example.invalid",
 		SupportedContractVersions: []string{"1.0"}, Capabilities: p.caps}, nil
 }
+// sel returns the key spec and chain a request selects: the plugin's default key, or the one named
+// by the per-call plugin configuration "verif.keySpec".
+func (p *honestPlugin) sel(cfg map[string]string) (string, *pki.Chain) {
+	if ks := cfg["verif.keySpec"]; ks != "" {
+		return ks, chainFor(ks)
+	}
+	return p.keySpec, p.chain
+}
+
 func (p *honestPlugin) DescribeKey(ctx context.Context, req *pf.DescribeKeyRequest) (*pf.DescribeKeyResponse, error) {
-	return &pf.DescribeKeyResponse{KeyID: req.KeyID, KeySpec: pf.KeySpec(p.keySpec)}, nil
+	ks, _ := p.sel(req.PluginConfig)
+	return &pf.DescribeKeyResponse{KeyID: req.KeyID, KeySpec: pf.KeySpec(ks)}, nil
 }
 func (p *honestPlugin) GenerateSignature(ctx context.Context, req *pf.GenerateSignatureRequest) (*pf.GenerateSignatureResponse, error) {
 	alg := map[string]pf.SignatureAlgorithm{"EC-256": pf.SignatureAlgorithmECDSA_SHA256, "EC-384": pf.SignatureAlgorithmECDSA_SHA384, "EC-521": pf.SignatureAlgorithmECDSA_SHA512,
-		"RSA-2048": pf.SignatureAlgorithmRSASSA_PSS_SHA256, "RSA-3072": pf.SignatureAlgorithmRSASSA_PSS_SHA384, "RSA-4096": pf.SignatureAlgorithmRSASSA_PSS_SHA512}[p.keySpec]
+		"RSA-2048": pf.SignatureAlgorithmRSASSA_PSS_SHA256, "RSA-3072": pf.SignatureAlgorithmRSASSA_PSS_SHA384, "RSA-4096": pf.SignatureAlgorithmRSASSA_PSS_SHA512}
+	ks, ch := p.sel(req.PluginConfig)
 	var chain [][]byte
-	for _, c := range p.chain.X509() {
+	for _, c := range ch.X509() {
 		chain = append(chain, c.Raw)
 	}
-	return &pf.GenerateSignatureResponse{KeyID: req.KeyID, Signature: envb.RawSign(p.chain.Leaf().Key, req.Payload), SigningAlgorithm: alg, CertificateChain: chain}, nil
+	return &pf.GenerateSignatureResponse{KeyID: req.KeyID, Signature: envb.RawSign(ch.Leaf().Key, req.Payload), SigningAlgorithm: alg[ks], CertificateChain: chain}, nil
 }
 func (p *honestPlugin) GenerateEnvelope(ctx context.Context, req *pf.GenerateEnvelopeRequest) (*pf.GenerateEnvelopeResponse, error) {
 	now := time.Now()
+	_, ch := p.sel(req.PluginConfig)
 	spec := envb.Spec{Format: req.SignatureEnvelopeType, Payload: req.Payload, ContentType: req.PayloadType, Scheme: envb.SchemeX509, SigningTime: now,
-		Chain: p.chain.X509(), Key: p.chain.Leaf().Key, Agent: "honest plugin"}
+		Chain: ch.X509(), Key: ch.Leaf().Key, Agent: "honest plugin"}
 	if req.ExpiryDurationInSeconds > 0 {
 		spec.Expiry = now.Add(time.Duration(req.ExpiryDurationInSeconds) * time.Second)
 	}
@@ -309,6 +329,16 @@ func roundTrip(c *Case) (string, string) {
 		sgn = s
 	}
 	sopts := notation.SignerSignOptions{SignatureMediaType: c.Format, ExpiryDuration: time.Duration(c.ExpirySecs) * time.Second, SigningAgent: c.Agent}
+	if c.OtherKeyFirst != "" && c.Signer != "local" {
+		// not judged: an earlier, ordinary use of the same signer object with another key
+		pre := sopts
+		pre.PluginConfig = map[string]string{"verif.keySpec": c.OtherKeyFirst}
+		if c.Kind == "oci" {
+			sgn.Sign(ctx, kit.Artifact("c07 earlier artifact"), pre)
+		} else {
+			notation.SignBlob(ctx, sgn, bytes.NewReader([]byte("c07 earlier blob")), notation.SignBlobOptions{SignerSignOptions: pre, ContentMediaType: "text/plain"})
+		}
+	}
 	// policy that trusts the signer; short expiries are only logged so that timing cannot decide
 	target := map[string]string{"authenticity": "enforce", "authenticTimestamp": "enforce", "expiry": "enforce", "revocation": "enforce"}
 	if c.ExpirySecs != 0 && c.ExpirySecs < 600 {
@@ -387,8 +417,27 @@ func roundTrip(c *Case) (string, string) {
 				return "C07:verified-unreadable-blob:" + site, "VerifyBlob succeeded although reading the blob failed in mid-stream"
 			}
 		}
+		statedType, statedMeta := c.MediaType, c.Metadata
+		switch c.VerifyOmit {
+		case "media-type":
+			statedType = ""
+		case "metadata":
+			statedMeta = nil
+		case "both":
+			statedType, statedMeta = "", nil
+		case "metadata-subset":
+			statedMeta = map[string]string{}
+			var ks []string
+			for k := range c.Metadata {
+				ks = append(ks, k)
+			}
+			sort.Strings(ks)
+			for _, k := range ks[:len(ks)/2] {
+				statedMeta[k] = c.Metadata[k]
+			}
+		}
 		got, out, err := notation.VerifyBlob(ctx, v, reader(c.VerReader, blob), env, notation.VerifyBlobOptions{
-			BlobVerifierVerifyOptions: notation.BlobVerifierVerifyOptions{SignatureMediaType: c.Format, UserMetadata: c.Metadata}, ContentMediaType: c.MediaType})
+			BlobVerifierVerifyOptions: notation.BlobVerifierVerifyOptions{SignatureMediaType: c.Format, UserMetadata: statedMeta}, ContentMediaType: statedType})
 		if err != nil {
 			return "C07:verify-failed:" + site, fmt.Sprintf("what the library signed does not verify: %v", err)
 		}
@@ -469,6 +518,12 @@ func drawCase(rt *rapid.T) *Case {
 		Agent:    rp.Pick(rt, "agent", "", "verif-agent/1.0", "агент 2"),
 		Identity: rp.Pick(rt, "identity", "wildcard", "pinned"),
 	}
+	if c.Signer != "local" && rapid.IntRange(0, 2).Draw(rt, "otherKeyFirst") == 0 {
+		c.OtherKeyFirst = rp.Pick(rt, "otherKeySpec", "EC-256", "EC-384", "EC-521", "RSA-2048", "RSA-3072")
+		if hashOf[c.OtherKeyFirst] == hashOf[c.KeySpec] {
+			c.OtherKeyFirst = map[string]string{"sha256": "EC-384", "sha384": "EC-521", "sha512": "EC-256"}[hashOf[c.KeySpec]]
+		}
+	}
 	c.ExpirySecs = rp.Pick(rt, "expiry", int64(0), 0, 1, 30, 3600, 86400, 10*365*86400, int64(rapid.IntRange(600, 1000000).Draw(rt, "expiryRandom")))
 	n := rapid.IntRange(0, 3).Draw(rt, "metadataCount")
 	if n > 0 || rapid.Bool().Draw(rt, "emptyNonNilMetadata") {
@@ -521,6 +576,7 @@ func drawCase(rt *rapid.T) *Case {
 		if c.BlobLen > 100000 && (strings.Contains(c.SignReader, "one-byte") || strings.Contains(c.VerReader, "one-byte")) {
 			c.SignReader, c.VerReader = "data-with-eof", "half" // one-byte readers on a megabyte are only slow
 		}
+		c.VerifyOmit = rp.Pick(rt, "verifyOmit", "", "", "", "media-type", "metadata", "both", "metadata-subset")
 		c.MediaType = rp.Pick(rt, "mime", "application/octet-stream", "text/plain; charset=utf-8", "Application/JSON", "application/vnd.example+json;version=1", "x/y")
 	}
 	return c
@@ -554,6 +610,12 @@ func TestC07_RoundTrip(t *testing.T) {
 		if c.EmptyAnn {
 			cl = append(cl, "artifact-annotations-empty-map")
 		}
+		if c.OtherKeyFirst != "" {
+			cl = append(cl, "signer-reused-after-other-key")
+		}
+		if c.Kind == "blob" && c.VerifyOmit != "" {
+			cl = append(cl, "verify-omits="+c.VerifyOmit)
+		}
 		if c.Kind == "oci" && c.Desc.Size > 1<<53 {
 			cl = append(cl, "size>2^53")
 		}
@@ -563,7 +625,7 @@ func TestC07_RoundTrip(t *testing.T) {
 				cl = append(cl, "after-failed-read")
 			}
 		}
-		rec.Case(cl, true, stats.Fingerprint(c.KeySpec, c.Format, c.Signer, c.Kind, fmt.Sprintf("%+v", c.Desc), c.EmptyAnn, c.BlobLen, c.BlobSeed, c.MediaType, strings.Join(mk, ";"), c.ExpirySecs, c.Identity, c.SignReader, c.VerReader, c.FailFirst), func() any { return c })
+		rec.Case(cl, true, stats.Fingerprint(c.KeySpec, c.Format, c.Signer, c.Kind, fmt.Sprintf("%+v", c.Desc), c.EmptyAnn, c.BlobLen, c.BlobSeed, c.MediaType, strings.Join(mk, ";"), c.ExpirySecs, c.Identity, c.SignReader, c.VerReader, c.FailFirst, c.VerifyOmit, c.OtherKeyFirst), func() any { return c })
 		key, msg := roundTrip(c)
 		if key == "harness" {
 			rt.Fatalf("harness: %s", msg)
